@@ -390,6 +390,11 @@ int oracle_container(int, char**) {
 		}
 		else if (c.op == "create") {
 			NifFile nif;
+			// reuse=<file>: the NifFile object held another (loaded) model before (Create must start from nothing)
+			if (!c.get("reuse").empty()) {
+				std::ifstream f(c.get("reuse"), std::ios::binary);
+				nif.Load(f);
+			}
 			nif.Create(named_version(c.get("ver")));
 			uint64_t x = static_cast<uint64_t>(c.geti("seed")) * 2654435761ULL + 12345;
 			auto rnd = [&]() {
